@@ -261,6 +261,87 @@ def c12(ck, tmp):
     os.environ.pop("GAFTOOLS_VERIF_BATCH_SIZE", None)
 
 
+# ---------------------------------------------------------------------------------------------------- real processes
+def real_runs(ck, prop, tmp, inputs, n):
+    """supporting evidence with the REAL multiprocessing: workers sleep at random (C11) or one worker dies at a chosen point by
+    os._exit / SIGKILL / an uncaught exception (C13); a watchdog turns a hang into a violation"""
+    import random
+    import signal
+    import time
+    import multiprocessing
+    import gaftools.cli.realign as R
+    rng = ck.rng
+    orig = R.wfa_alignment
+
+    class Watchdog(Exception):
+        pass
+
+    def on_alarm(*a):
+        raise Watchdog()
+
+    for it in range(n):
+        nrec = rng.choice([3, 4, 5])
+        bs = rng.choice([1, 2])
+        cores = rng.choice([1, 2, 3])
+        gaf, fasta, ref = inputs[nrec]
+        death = None
+        if prop == "C13":
+            death = {"first_prio": rng.randrange(0, nrec, bs), "k": rng.randint(0, bs + 1), "mode": rng.choice(["exit9", "sigkill", "exception"])}
+        seed = rng.randrange(1 << 30)
+
+        def wrapped(seq_batch, qu, death=death, seed=seed):
+            r = random.Random(seed + seq_batch[0][3])
+
+            class Q:
+                n = 0
+
+                def put(self, x):
+                    if death and seq_batch[0][3] == death["first_prio"] and Q.n == death["k"]:
+                        if death["mode"] == "exit9":
+                            os._exit(9)
+                        if death["mode"] == "sigkill":
+                            os.kill(os.getpid(), signal.SIGKILL)
+                        sys.stderr = open(os.devnull, "w")     # the child's traceback is not interesting
+                        raise RuntimeError("injected")
+                    Q.n += 1
+                    time.sleep(r.choice([0, 0, 0.01, 0.15]))
+                    qu.put(x)
+            return orig(seq_batch, Q())
+        R.wfa_alignment = wrapped
+        os.environ["GAFTOOLS_VERIF_BATCH_SIZE"] = str(bs)
+        out = io.StringIO()
+        old = signal.signal(signal.SIGALRM, on_alarm)
+        signal.alarm(40)
+        try:
+            R.realign_gaf(gaf, DATA + "smallgraph.gfa", fasta, out, cores)
+            res = ("ok", None)
+        except SystemExit as e:
+            res = ("exit", e.code)
+        except Watchdog:
+            res = ("hang", None)
+        except BaseException as e:  # noqa
+            res = ("crash", type(e).__name__ + ": " + str(e)[:200])
+        finally:
+            signal.alarm(0)
+            signal.signal(signal.SIGALRM, old)
+            R.wfa_alignment = orig
+            for ch in multiprocessing.active_children():
+                ch.kill()
+        lines = out.getvalue().splitlines()
+        meta = {"real_processes": True, "records": nrec, "batch": bs, "cores": cores, "death": death, "result": list(res), "output": [l.split("\t")[0] for l in lines]}
+        ck.case(meta, True, sample=meta if it < 1 else None)
+        ck.count("real:" + res[0] + (str(res[1]) if res[0] == "exit" else ""))
+        if res[0] == "hang":
+            ck.violation("realign (real processes) did not finish within 40 s", meta)
+        elif res[0] == "crash":
+            ck.violation("realign (real processes) crashed: %s" % res[1], meta)
+        elif res[0] == "ok" and lines != ref:
+            ck.violation("realign (real processes) reported success for an output that is not the single-core file", meta)
+        elif res[0] == "exit" and (death is None or res[1] in (0, None)):
+            ck.violation("realign (real processes) exited with status %r%s" % (res[1], "" if death else " without any worker failure"), meta)
+    os.environ.pop("GAFTOOLS_VERIF_BATCH_SIZE", None)
+
+
 def main_c12():
     ck = Check("C12")
     ck.trusted = ["Lean 4.33.0 kernel", "axioms: propext, Classical.choice, Quot.sound (audited)", "correspondence harness + JSON driver",
@@ -346,6 +427,7 @@ def main(prop):
             if len(ck.violations) > 5:
                 break
         flush_model(ck)
+        real_runs(ck, prop, tmp, inputs, 4 if quick else 80)
     finally:
         os.environ.pop("GAFTOOLS_VERIF_BATCH_SIZE", None)
         shutil.rmtree(tmp, ignore_errors=True)
